@@ -954,7 +954,7 @@ def _mutable_literal(e):
         isinstance(e, ast.Call) and norm(e.func) in MUTABLE_CTORS)
 
 
-def shared_state(prog, fi):
+def shared_state(prog, fi, globals_ok=False):
     """Constructs of function fi through which one call can influence a
     LATER call (or another instance): memoising decorators, global /
     nonlocal declarations, and stores into / mutations of a mutable
@@ -966,7 +966,7 @@ def shared_state(prog, fi):
                                       "memoise")):
             out.append((d, "memoising decorator @%s" % norm(d, 40)))
     for x in walk_no_nested(fi.node):
-        if isinstance(x, (ast.Global, ast.Nonlocal)):
+        if isinstance(x, (ast.Global, ast.Nonlocal)) and not globals_ok:
             out.append((x, norm(x)))
     mod = prog.modules[fi.module]
     modlevel = set()
